@@ -56,6 +56,9 @@ fn fit_case<T: Sc>(rng: &mut Rng, case: u64, out: &mut CaseOut) {
     out.evals += 1;
     out.nontrivial.push(crate::rng::hash_u64s([spec.hash(), crate::rng::fnv(cfg.to_json().to_string().as_bytes())]));
     let term = fit.termination();
+    if case < 16 {
+        out.sample(json!({"problem": spec.to_json(), "optimizer": cfg.to_json(), "termination": term, "evaluations": fit.report().number_of_evaluations, "budget": cfg.max_fev(np)}));
+    }
     out.seen("terminations", term.split(['(', ' ', '{']).next().unwrap_or("").to_string());
     // fit == minimize + wrap
     if call_sig(&log_fit) != call_sig(&log_twin) || term != format!("{:?}", rep2.termination) || fit.report().number_of_evaluations != rep2.number_of_evaluations
@@ -128,9 +131,6 @@ fn fit_case<T: Sc>(rng: &mut Rng, case: u64, out: &mut CaseOut) {
             violation(out, stream, case, format!("objective after a successful fit ({want:e}) is larger than at the initial guess ({o0:e})"), json!({"problem": spec.to_json(), "optimizer": cfg.to_json()}));
             return;
         }
-    }
-    if case < 3 {
-        out.sample(json!({"problem": spec.to_json(), "optimizer": cfg.to_json(), "termination": term, "evaluations": noe, "budget": max_fev}));
     }
     let _ = la::norm2(&[0.0]);
 }
